@@ -63,7 +63,7 @@ PROPS = {
                                                                'DW.C07_unaffected_eq', 'DW.C07_unaffected_pcmp'],
                 enums=['incomparable'], configs_quick=['default', 'safe', 'nightly', 'zod'], design='7/C07'),
     'C08': dict(traits=['Hash'], theorems=['DW.C08_transcript', 'DW.C08_iff'], enums=['skip', 'fieldopts'], configs_quick=['default', 'safe', 'zod'], design='7/C08'),
-    'C09': dict(traits=['Clone', 'Copy'], theorems=['DW.C09_fieldwise', 'DW.C09_shortcut', 'DW.C09_union', 'DW.C09_copy_marker'],
+    'C09': dict(tables=True, traits=['Clone', 'Copy'], theorems=['DW.C09_fieldwise', 'DW.C09_shortcut', 'DW.C09_union', 'DW.C09_copy_marker'],
                 enums=['bounds', 'skip'], configs_quick=['default', 'safe', 'zod'], design='7/C09'),
     'C10': dict(traits=['Debug'], theorems=['DW.C10_transcript', 'DW.C10_names'], enums=['debug', 'skip', 'fieldopts'], configs_quick=['default', 'safe', 'zod'], design='7/C10'),
     'C11': dict(traits=['Default'], theorems=['DW.C11_body', 'DW.C11_validated'], enums=['default'], configs_quick=['default', 'safe', 'zod'], design='7/C11'),
@@ -72,7 +72,7 @@ PROPS = {
     'C13': dict(traits=STD, theorems=['DW.C13_eq_cfg_independent', 'DW.C13_ord_cfg_independent', 'DW.C13_untouched_traits',
                                       'DW.C13_zeroize_inert', 'DW.C13_forgetDiscr'],
                 enums=['discriminants', 'incomparable'], configs_quick=ALL_CONFIGS, cross_config=True, design='7/C13'),
-    'C14': dict(traits=None, part='all', theorems=['DW.C14_no_method_calls', 'DW.C14_core_paths_rooted', 'DW.C14_trait_path', 'DW.C14_crate_option', 'DW.C14_fn_paths_rooted',
+    'C14': dict(tables=True, traits=None, part='all', theorems=['DW.C14_no_method_calls', 'DW.C14_core_paths_rooted', 'DW.C14_trait_path', 'DW.C14_crate_option', 'DW.C14_fn_paths_rooted',
                                                 'DW.C14_simple_distinct', 'DW.C14_field_vs_simple', 'DW.C14_self_vs_other', 'DW.C14_binders_fresh', 'DW.C14_crate_anywhere'],
                 enums=['debug', 'zeroize', 'names'], configs_quick=['default', 'zod', 'safe'], stage1=True, diagnostics=True, design='7/C14'),
     'C15': dict(tables=True, traits=[], outcome='message', theorems=['DW.C15_incomparable_total', 'DW.C15_incomparable_needs_partial', 'DW.C15_incomparable_not_both',
@@ -84,7 +84,7 @@ PROPS = {
                 enums=['invalid', 'skip', 'default'], configs_quick=['default', 'zeroize', 'zod', 'nightly'], diagnostics=True, design='7/C15'),
     'C16': dict(traits=[], outcome='message', theorems=['DW.C16_no_panic_stage2', 'DW.Input.fromInput_np', 'DW.genPanic_none', 'DW.C16_stage1_item_kept', 'DW.C16_stage1_forward', 'DW.C16_pipeline', 'DW.C16_crate_args_rejected', 'DW.C16_second_visit'],
                 enums=['invalid', 'names'], stage1=True, malformed=0.6, configs_quick=['default', 'zeroize', 'zod', 'nightly'], diagnostics=True, design='7/C16'),
-    'C17': dict(traits=['Eq', 'Clone'], theorems=['DW.C17_eq_obligations', 'DW.C17_union', 'DW.C06_skipped_never_mentioned', 'DW.C02_obligations', 'DW.C02_well_typed'], enums=['skip', 'bounds', 'fieldopts'], configs_quick=['default', 'safe', 'zod'], design='7/C17'),
+    'C17': dict(tables=True, traits=['Eq', 'Clone'], theorems=['DW.C17_eq_obligations', 'DW.C17_union', 'DW.C06_skipped_never_mentioned', 'DW.C02_obligations', 'DW.C02_well_typed'], enums=['skip', 'bounds', 'fieldopts'], configs_quick=['default', 'safe', 'zod'], design='7/C17'),
     'C18': dict(traits=['Zeroize'], theorems=['DW.C18_effect'], enums=['zeroize', 'skip', 'fieldopts'], configs_quick=['zeroize', 'zod'],
                 configs_thorough=['zeroize', 'zod', 'safe-zod'], design='7/C18'),
     'C19': dict(traits=['ZeroizeOnDrop'], theorems=['DW.C19_effect_zod', 'DW.C19_effect_delegating', 'DW.C19_impls'],
@@ -158,10 +158,10 @@ def proof_obligations(prop, thorough):
             res['tables'] = dict(extractable=False, reason=n, note='tables not in the recognised shape: tied by correspondence A only')
         else:
             res['problems'] += probs
-            res['obligations'] = res.get('obligations', 0) + len(tables.THEOREMS)
+            res['obligations'] = res.get('obligations', 0) + len(tables.LAST_NAMES)
             res['discharged'] = res.get('discharged', 0) + n
-            res['tables'] = dict(extractable=True, theorems=len(tables.THEOREMS), discharged=n,
-                                 source=['src/attr/skip.rs', 'src/trait_.rs', 'src/item.rs'])
+            res['tables'] = dict(extractable=True, theorems=len(tables.LAST_NAMES), discharged=n,
+                                 source=['src/attr/skip.rs', 'src/trait_.rs', 'src/item.rs', 'src/attr/item.rs', 'src/trait_/*.rs'])
     # lemma count in the closure (informational)
     res['theorems_in_model'] = count_theorems()
     if thorough:
